@@ -1,12 +1,16 @@
 mod util;
 mod backend;
 mod c19;
+mod c13;
+mod c06;
 
 fn main() {
 	let args = util::parse_args();
 	util::install_panic_hook();
 	match args.prop.as_str() {
 		"C19" => c19::run(&args),
+		"C13" => c13::run(&args),
+		"C06" => c06::run(&args),
 		p => {
 			eprintln!("unknown property {p}");
 			std::process::exit(2);
